@@ -291,7 +291,7 @@ func holds(ls lockset, lockSuffix string, needWrite bool) bool {
 // lockPairing checks, for every function/method/closure whose key has one of the prefixes,
 // that no lock acquired in it may still be held at a return.  Returns the number of acquire sites.
 func (c *Ctx) lockPairing(prefixes ...string) {
-	for _, fn := range c.Funcs {
+	for _, fn := range c.subjects() {
 		k := fnKey(fn)
 		match := false
 		for _, p := range prefixes {
@@ -327,7 +327,7 @@ type guardedField struct {
 // with the mutex of the same object held (write mode for stores).
 func (c *Ctx) guardedBy(g guardedField, exemptFns map[string]string) {
 	n := 0
-	for _, fn := range c.Funcs {
+	for _, fn := range c.subjects() {
 		var lf *lockFlow
 		instrs(fn, func(_ *ssa.BasicBlock, _ int, ins ssa.Instruction) {
 			fa, ok := ins.(*ssa.FieldAddr)
@@ -344,8 +344,10 @@ func (c *Ctx) guardedBy(g guardedField, exemptFns map[string]string) {
 				c.info(key, fa.Pos(), "constructor: object not yet shared")
 				return
 			}
-			if lf == nil {
-				lf = analyseLocks(fn)
+			// an access inside a new helper is judged by the helper's own lock flow
+			owner := fa.Parent()
+			if lf == nil || lf.fn != owner {
+				lf = analyseLocks(owner)
 			}
 			base := strings.ReplaceAll(lockKey(fa.X), "*", "")
 			want := base + "." + g.Mutex
@@ -431,7 +433,7 @@ func receivesFromField(fn *ssa.Function, field string) []ssa.Instruction {
 // not call, before giving it back, a method of the same type that takes a token itself.
 func (c *Ctx) poolReentrancy(typ, field string) {
 	var methods []*ssa.Function
-	for _, fn := range c.Funcs {
+	for _, fn := range c.subjects() {
 		if fn.Parent() == nil && strings.HasPrefix(fnKey(fn), typ+".") {
 			methods = append(methods, fn)
 		}
